@@ -2124,7 +2124,8 @@ class EntityDef:
         # Make it look pretty: BaseClass
         file.write(f'@{self.type.value.title().replace("class", "Class")} ')
         if self.bases:
-            file.write('base(')
+            # aliasof() is our extension, it otherwise works the same as base().
+            file.write('aliasof(' if self.is_alias and custom_syntax else 'base(')
             file.write(', '.join([
                 (base.classname if isinstance(base, EntityDef) else base)
                 for base in self.bases
